@@ -557,6 +557,21 @@ def f_short_no_volume(rng):
     return pre + body
 
 
+def f_short_antecedent_elsewhere(rng):
+    """a short form with an antecedent guess whose reporter+volume matches no earlier case, or two of them, while the antecedent
+    names a party of exactly one OTHER earlier case: must stay unresolved / be resolved only among the reporter+volume candidates"""
+    p, d = party(rng), party(rng)
+    r1, r2 = rng.sample(["U.S.", "F.2d", "F.3d", "S. Ct.", "N.E.2d", "P.2d"], 2)
+    v1, v2 = num(rng, 99), num(rng, 99)
+    first = f"{P(p)} v. {P(d)}, {v1} {r1} {num(rng)}."
+    if rng.random() < 0.5:
+        mid = ""
+    else:
+        mid = f" {P(party(rng))} v. {P(party(rng))}, {v2} {r2} {num(rng)}. {P(party(rng))} v. {P(party(rng))}, {v2} {r2} {num(rng)}."
+    short = f" {P(rng.choice([p, d]))}, {v2} {r2}, at {num(rng)}."
+    return first + mid + short
+
+
 def f_reference_before(rng):
     """a party name mentioned (italicised in markup mode) BEFORE the full citation as well as after it: only the later
     mention may become a reference citation"""
@@ -574,6 +589,7 @@ FAMILIES = {
     "long_backward": f_long_backward,
     "same_vol_page_series": f_same_vol_page_series,
     "short_no_volume": f_short_no_volume,
+    "short_antecedent_elsewhere": f_short_antecedent_elsewhere,
     "reference_before": f_reference_before,
     "full": f_full,
     "bare": f_bare,
@@ -604,7 +620,7 @@ DEFAULT_MIX = [
     ("supra", 5), ("id", 6), ("law", 5), ("journal", 4), ("placeholder", 3), ("cal_year", 5),
     ("string_cite", 4), ("nested_paren", 4), ("nominative_overlap", 5), ("odd_v", 5), ("reference", 5),
     ("id_after_odd_page", 3), ("long_digits", 0.4), ("filler", 6), ("hostile", 2), ("section_glued", 2),
-    ("long_backward", 5), ("reference_before", 2), ("same_vol_page_series", 4), ("short_no_volume", 4),
+    ("long_backward", 5), ("reference_before", 2), ("same_vol_page_series", 4), ("short_no_volume", 4), ("short_antecedent_elsewhere", 4),
 ]
 
 # focus (qualified function name, without the leading "eyecite.") -> template families
@@ -625,7 +641,7 @@ FOCUS = {
     "helpers.overlapping_citations": [("short_parallel", 8), ("reference", 8), ("parallel", 6)],
     "resolve._has_invalid_pin_cite": [("id_after_odd_page", 12), ("placeholder", 3), ("id", 3), ("long_digits", 1)],
     "resolve._resolve_id_citation": [("id_after_odd_page", 8), ("id", 6), ("string_cite", 4)],
-    "resolve.resolve_citations": [("same_vol_page_series", 5), ("id_after_odd_page", 4), ("reference", 4), ("short", 4), ("supra", 4), ("id", 4), ("full", 4)],
+    "resolve.resolve_citations": [("short_antecedent_elsewhere", 5), ("same_vol_page_series", 5), ("id_after_odd_page", 4), ("reference", 4), ("short", 4), ("supra", 4), ("id", 4), ("full", 4)],
     "tokenizers.Tokenizer.tokenize": [("nominative_overlap", 12), ("full", 3), ("section_glued", 3), ("supra", 2), ("id", 2), ("string_cite", 2), ("hostile", 2)],
     "tokenizers.token_is_from_nominative_reporter": [("nominative_overlap", 12), ("full", 2)],
     "tokenizers.Tokenizer.append_text": [("filler", 6), ("hostile", 6), ("full", 3)],
@@ -642,7 +658,7 @@ FOCUS = {
     "models.Edition.includes_year": [("bare", 8), ("cal_year", 5), ("full", 5)],
     "find.get_citations": None,  # default mix
     "find._extract_full_citation": [("full", 6), ("bare", 4), ("law", 4), ("journal", 4), ("placeholder", 2)],
-    "resolve._resolve_shortcase_citation": [("short_no_volume", 8), ("short", 8), ("short_parallel", 4), ("same_vol_page_series", 3), ("full", 3)],
+    "resolve._resolve_shortcase_citation": [("short_antecedent_elsewhere", 8), ("short_no_volume", 8), ("short", 8), ("short_parallel", 4), ("same_vol_page_series", 3), ("full", 3)],
     "find._extract_shortform_citation": [("short_no_volume", 5), ("long_backward", 5), ("short", 10), ("short_parallel", 5), ("nominative_overlap", 2)],
     "find._extract_supra_citation": [("long_backward", 5), ("supra", 10), ("reference", 2), ("hostile", 2)],
     "find._extract_id_citation": [("id", 10), ("id_after_odd_page", 3), ("string_cite", 2)],
